@@ -41,20 +41,28 @@ pub fn show_file(f: &ASetFile) -> String {
 }
 
 /// Characters of the sub-codec shared with the Lean model: ASCII (NUL-free), half-width
-/// katakana, hiragana, katakana.
+/// katakana, hiragana, katakana, Greek, Cyrillic (`subcodec::TABLE`).
 pub fn rand_char(rng: &mut Rng) -> char {
     match rng.below(10) {
         0..=5 => char::from_u32(rng.range(0x20, 0x7E) as u32).unwrap(),
         6 => char::from_u32(rng.range(0x01, 0x7F) as u32).unwrap(),
         7 => char::from_u32(rng.range(0xFF61, 0xFF9F) as u32).unwrap(),
-        8 => char::from_u32(rng.range(0x3041, 0x3093) as u32).unwrap(),
+        8 => {
+            if rng.chance(1, 2) {
+                char::from_u32(rng.range(0x3041, 0x3093) as u32).unwrap()
+            } else {
+                // Greek / Cyrillic: as long in Shift-JIS as in UTF-8
+                let t = &crate::subcodec::TABLE[4 + rng.below(9) as usize];
+                char::from_u32(rng.range(t.0 as u64, t.1 as u64) as u32).unwrap()
+            }
+        }
         _ => char::from_u32(rng.range(0x30A1, 0x30F6) as u32).unwrap(),
     }
 }
 
-const POOL: [&str; 14] = [
+const POOL: [&str; 17] = [
     "", "a", "b", "idle", "run", "attack_1", "AnimClipNameTable", "label", "ウマ", "よろける", "ｱﾆﾒ", "x y",
-    "A", "none1",
+    "A", "none1", "Ω2", "часть1", "αβγ",
 ];
 
 pub fn rand_name(rng: &mut Rng) -> String {
